@@ -387,6 +387,22 @@ func (c *Ctx) applyMath(name string, x *smt.Term) *smt.Term {
 			st.Implies(st.FPLe(x, zero), st.FPLe(r, one)),
 			st.Implies(st.FPLe(zero, x), st.FPLe(one, r)),
 		}
+		fc := func(f float64) *smt.Term {
+			if x.Sort.K == smt.KFP32 {
+				return st.F32C(float32(f))
+			}
+			return st.F64C(f)
+		}
+		for _, b := range [][2]float64{{-1, 0.25}, {-16, 1e-7}, {-80, 1e-35}} {
+			ax = append(ax, st.Implies(st.FPLe(fc(b[0]), x), st.FPLe(fc(b[1]), r)))
+		}
+		for _, b := range [][2]float64{{1, 3}, {16, 1e7}, {80, 1e35}} {
+			ax = append(ax, st.Implies(st.FPLe(x, fc(b[0])), st.FPLe(r, fc(b[1]))))
+		}
+		if x.Sort.K == smt.KFP64 {
+			ax = append(ax, st.Implies(st.FPLe(fc(-700), x), st.FPLe(fc(1e-305), r)), st.Implies(st.FPLe(x, fc(700)), st.FPLe(r, fc(1.1e304))))
+		}
+		c.E.Assumptions["exp/math32.Exp bracketing: x>=-1 => exp>=0.25, x>=-16 => exp>=1e-7, x>=-80 => exp>=1e-35, x<=1 => exp<=3, x<=16 => exp<=1e7, x<=80 => exp<=1e35 (float64 also +-700)"] = true
 		c.E.Assumptions["exp/math32.Exp: NaN iff NaN, exp(+Inf)=+Inf, exp(-Inf)=+0, exp(x)>=0, x<=0 => exp(x)<=1, x>=0 => exp(x)>=1 (assumed of Go's routines)"] = true
 	case "tanh":
 		ax = []*smt.Term{
@@ -420,7 +436,11 @@ func mathIntrinsic(c *Ctx, fn *ssa.Function, a []Value) Value {
 		name = "m32." + name
 	}
 	if c.Ring {
-		return c.St.App(c.ufName(strings.TrimPrefix(name, "m32."), x.Sort), x.Sort, x)
+		base := strings.TrimPrefix(name, "m32.")
+		if base == "exp" {
+			return c.expReal(x)
+		}
+		return c.St.App(c.ufName(base, x.Sort), x.Sort, x)
 	}
 	return c.applyMath(name, x)
 }
